@@ -266,6 +266,22 @@ func init() {
 		_, _, _, err = c.hu.Upgrade(req, &hjWriter{conn: conn, h: http.Header{}})
 		return fmt.Sprintf("%s written=%d", hsErrClass2(err), conn.buf.Len())
 	}
+	// upnr <code> <reasonhex> <hdrhex> <reqhex>: both upgraders with a Negotiate callback of the application's own
+	// that REJECTS the connection (status, reason, extra header): the response is the callback's
+	ops["upnr"] = func(a []string) string {
+		rej := mkRej(a[0:3])
+		neg := func(httphead.Option) (httphead.Option, error) { return httphead.Option{}, rej }
+		reqB := unhx(a[3])
+		var out bytes.Buffer
+		_, e1 := ws.Upgrader{Negotiate: neg}.Upgrade(rwPair{bytes.NewReader(reqB), &out})
+		res := fmt.Sprintf("%s written=%s", hsErrClass2(e1), hx(out.Bytes()))
+		if req, err := http.ReadRequest(bufio.NewReader(bytes.NewReader(reqB))); err == nil {
+			conn := &hjConn{}
+			_, _, _, e2 := ws.HTTPUpgrader{Negotiate: neg}.Upgrade(req, &hjWriter{conn: conn, h: http.Header{}})
+			res += fmt.Sprintf(" h=%s hwritten=%s", hsErrClass2(e2), hx(conn.buf.Bytes()))
+		}
+		return res
+	}
 	register("C09", genC09)
 	register("C09", genHsCut)
 	register("C16", genHsCut)
@@ -434,6 +450,13 @@ func genC09(tier string, r *rng) {
 	rej6 := "403:" + hx([]byte("denied\n")) + ":-"
 	rej7 := "r0:" + hx([]byte("two lines\r\nsecond\r\n")) + ":" + hx([]byte("X-Why: nl\r\n"))
 	cbs := []string{"onreq:" + rej4, "before:r:" + rej5, "onhost:" + rej4, "onhdr:" + hx([]byte("X-A")) + ":" + rej4, "onreq:" + rej1, "onhost:" + rej2, "onhdr:" + hx([]byte("X-A")) + ":" + rej3, "before:r:" + rej1, "before:h:" + hx([]byte("Set-Cookie: a=b\r\n")), hdrCfg}
+	// a Negotiate callback of the application's own that rejects with a status, a reason and a header
+	for _, rj := range []string{rej1, rej3, rej4, rej6, "429:" + hx([]byte("slow down")) + ":" + hx([]byte("Retry-After: 3\r\n"))} {
+		f := strings.Split(rj, ":")
+		for _, ev := range []string{" permessage-deflate", " x-foo; a=b, permessage-deflate; client_max_window_bits"} {
+			run(fmt.Sprintf("upnr %s %s %s %s", f[0], f[1], f[2], hx(buildReq("GET", "/", "HTTP/1.1", append(append([]hdr{}, base...), hdr{"Sec-WebSocket-Extensions", ev}), "\r\n"))))
+		}
+	}
 	for _, cfg := range []string{"onreq:" + rej6, "onhost:" + rej7, "before:r:" + rej6, "onhdr:" + hx([]byte("X-A")) + ":" + rej7} {
 		emitUp(cfg, buildReq("GET", "/", "HTTP/1.1", append([]hdr{{"X-A", " 1"}}, base...), "\r\n"))
 	}
